@@ -201,7 +201,21 @@ func stripedRun[BT, ST signal.SignalTypes](c *Case, read bool) (res kit.Result) 
 	model := kit.RootModel[BT](C, c.A+c.F1+c.Spare)
 	w := root.Slice(c.A, c.A+c.F1)
 	wh, rh := kit.HdrOf(w), kit.HdrOf(root)
-	sl := make([][]ST, c.N)
+	// the outer slice may have spare capacity, with further per-channel slices behind its
+	// length that the caller did not pass: they are not the library's to touch either
+	hidden := (c.F2 + c.N) % 4 // 0..3 extra elements behind len
+	outer := make([][]ST, c.N+hidden)
+	for i := c.N; i < len(outer); i++ {
+		outer[i] = make([]ST, c.F2+1)
+		for k := range outer[i] {
+			outer[i][k] = ST(kit.OutSentinel(i*5 + k))
+		}
+	}
+	hiddenKeep := make([][]ST, hidden)
+	for i := range hiddenKeep {
+		hiddenKeep[i] = append([]ST(nil), outer[c.N+i]...)
+	}
+	sl := outer[:c.N]
 	keep := make([][]ST, c.N)
 	for i := range sl {
 		if (i+c.F2)%4 == 3 {
@@ -239,6 +253,15 @@ func stripedRun[BT, ST signal.SignalTypes](c *Case, read bool) (res kit.Result) 
 			res.Failf("%s panicked after modifying: %s", what, d)
 			return
 		}
+	}
+	for i := range hiddenKeep {
+		if d := kit.DiffSlice(fmt.Sprintf("slice %d behind the length of the caller's outer slice", c.N+i), outer[c.N+i], hiddenKeep[i]); d != "" {
+			res.Failf("%s: %s", what, d)
+			return
+		}
+	}
+	if hidden > 0 {
+		res.Class("outerSliceWithSpareCapacity")
 	}
 	res.Class(c.Entry)
 	return
